@@ -156,13 +156,8 @@ class E2EWorld(World):
         else:
             rt.externals["!absent:cplex"] = True
         self.pivot = pivot
-        self.random_calls = []
-
-        def choice(a, kw, ev, node):
-            seq = a[0]
-            self.random_calls.append(("choice", len(seq)))
-            return seq[0] if self.pivot == "first" else (seq[-1] if self.pivot == "last" else seq[len(seq) // 2])
-        rt.externals["random.choice"] = ExternalFunc(choice)
+        rt.random.mode = pivot          # every random draw (python or numpy source) follows the world's pivot policy
+        self.random_calls = rt.random.log
         self.SS = proj.cls("corankco.scoringscheme", "ScoringScheme")
         self.K = proj.cls("corankco.kemeny_score_computation", "KemenyComputingFactory")
         # ---- PuLP stand-in ----
